@@ -708,6 +708,64 @@ def multi_visit_size(nodes, cap=60000):
     return count[0]
 
 
+def coq_gsum_case(root, p, timeout=20):
+    """Run lark's ForestSumVisitor on the PRISTINE forest (every priority still -inf) and emit the case for
+    gsum_ok of Forest/GraphResolveCheck.v: the graph, rule priority / rule order / token priority tables, and the
+    priority found on every symbol and packed node afterwards (None = -inf).  Must be called before any other
+    walk touches the forest."""
+    from lark.parsers.earley_forest import ForestSumVisitor
+    with_timeout(timeout, ForestSumVisitor().visit, root)
+    maps = {}
+    nodes = export_graph(root, p, maps)
+    rules, terms = tables(p)
+    nts, tms = {}, {}
+
+    def nt(n):
+        return nts.setdefault(n, len(nts))
+
+    def tm(n):
+        return tms.setdefault(n, len(tms))
+    rule_terms = []
+    for r in rules:
+        rule_terms.append('(mkRule %d %s)' % (nt(r['origin']), L(['(T %d)' % tm(n) if t else '(NT %d)' % nt(n)
+                                                                  for t, n in r['exp']]) if r['exp'] else '(@nil symbol)'))
+
+    def label(i):
+        nd = nodes[i]
+        if nd['k'] == 'T':
+            return '(NTok nat %d %d 0 0)' % (tm(nd['term']), nd['tid'])
+        if nd['inter']:
+            ri, ptr = nd['name'].split('.')
+            return '(NInter nat (r %s) %s %d %d)' % (ri, ptr, nd['start'], nd['end'])
+        return '(NSym nat %d %d %d)' % (nt(str(nd['name'])), nd['start'], nd['end'])
+
+    def fam(k):
+        pk = nodes[k]
+        o = lambda x: 'None' if x is None else '(Some %s)' % label(x)
+        return '(r %d, %s, %s)' % (pk['rule'], o(pk['left']), o(pk['right']))
+
+    def oz(v):
+        return 'None' if v == NEG_INF or v is None else '(Some %s)' % Z(int(v))
+    fams, osym, opk = [], [], []
+    ntok = 1 + max([nd['tid'] for nd in nodes if nd['k'] == 'T'] or [0])
+    tptab = [0] * ntok
+    for i, nd in enumerate(nodes):
+        if nd['k'] == 'S':
+            osym.append('(%s, %s)' % (label(i), oz(nd['prio'])))
+            for k in nd['fams']:
+                fams.append('(%s, %s)' % (label(i), fam(k)))
+                opk.append('(%s, %s, %s)' % (label(i), fam(k), oz(nodes[k]['prio'])))
+        elif nd['k'] == 'T':
+            tptab[nd['tid']] = int(nd['prio'] or 0)
+    rptab = L(['(r %d, %s)' % (i, Z(int(r['prio'] or 0))) for i, r in enumerate(rules)])
+    rotab = L(['(r %d, %s)' % (i, Z(int(r['order']))) for i, r in enumerate(rules)])
+    small = (not is_cyclic(nodes)) and unfolded_size(nodes) <= 300
+    return ('(let r := fun k : nat => nth k %s (mkRule 0 []) in (%s, %s, %s, %s, %s, %s, %s, %s))'
+            % (L(rule_terms), L(fams) if fams else '(@nil (nlabel nat * family nat))', rptab, rotab,
+               L([Z(v) for v in tptab]), label(0), L(osym) if osym else '(@nil (nlabel nat * option Z))',
+               L(opk) if opk else '(@nil (nlabel nat * family nat * option Z))', 'true' if small else 'false'))
+
+
 def coq_graph_case(root, p, timeout=20):
     """Run lark's ForestToParseTree(resolve_ambiguity=True) with rule-identity callbacks on the forest (cyclic or
     not) and emit the case for Forest/GraphResolveCheck.v: (label, family) pairs in insertion order, the
